@@ -93,6 +93,7 @@ class Program:
         self.class_attrs = {}  # (cls, name) -> value expr for non-alias class-level assigns
         self.module_imports = {}  # module -> {local name: ('module'|'name', target)}
         self.module_assigns = {}  # module -> {name: value expr}
+        self.normalized = {}      # module -> what the load-time normaliser rewrote
         self._load()
 
     # ------------------------------------------------------------------ loading
@@ -111,6 +112,11 @@ class Program:
                 tree = ast.parse(text, filename=p)
             except SyntaxError as e:
                 raise AnalysisError("syntax error in %s: %s" % (p, e))
+            if os.environ.get("FXLINT_NO_NORMALIZE") != "1":
+                from .normalize import normalize_module
+                from .pinned import PINNED_FUNCS, PINNED_GLOBALS
+                tree, info = normalize_module(m, tree, PINNED_FUNCS, PINNED_GLOBALS)
+                self.normalized[m] = info
             self.sources[m] = text
             self.modules[m] = tree
             h.update(m.encode() + b"\0" + text.encode() + b"\0")
